@@ -80,11 +80,11 @@ func intContent(v *big.Int) []byte {
 	}
 }
 
-func dInt(v *big.Int) []byte   { return tlv(0x02, intContent(v)) }
-func dInt64(v int64) []byte    { return dInt(big.NewInt(v)) }
-func dEnum(v int64) []byte     { return tlv(0x0a, intContent(big.NewInt(v))) }
-func dOctet(b []byte) []byte   { return tlv(0x04, b) }
-func dNull() []byte            { return []byte{0x05, 0x00} }
+func dInt(v *big.Int) []byte     { return tlv(0x02, intContent(v)) }
+func dInt64(v int64) []byte      { return dInt(big.NewInt(v)) }
+func dEnum(v int64) []byte       { return tlv(0x0a, intContent(big.NewInt(v))) }
+func dOctet(b []byte) []byte     { return tlv(0x04, b) }
+func dNull() []byte              { return []byte{0x05, 0x00} }
 func dBitString(b []byte) []byte { return tlv(0x03, []byte{0}, b) }
 func dBool(v bool) []byte {
 	if v {
